@@ -101,6 +101,40 @@ class Impl:
         assert self.proto.post_bootstrap.called
         self.bootstrap_writes = [x for x in self.log]
         self.log = []
+        # a second, unrelated control connection in the same process with a plain command in flight: its reply arrives piecemeal,
+        # one line before every read of the connection under test (each connection's replies are its own)
+        self.decoy = TorControlProtocol()
+        dtr = proto_helpers.StringTransport()
+        self.decoy.makeConnection(dtr)
+        for chunk in (b'250-PROTOCOLINFO 1\r\n250-AUTH METHODS=NULL\r\n250-VERSION Tor="0.4.8.0"\r\n250 OK\r\n', b'250 OK\r\n',
+                      b'250-signal/names=RELOAD HUP NEWNYM\r\n250 OK\r\n', b'250-version=0.4.8.0\r\n250 OK\r\n',
+                      ('250-events/names=%s\r\n250 OK\r\n' % ' '.join(EVENT_NAMES)).encode(), b'250 OK\r\n'):
+            self.decoy.dataReceived(chunk)
+        self.decoy_result = []
+        self.decoy_lines = []
+        self.decoy.queue_command('GETINFO decoy').addCallbacks(lambda r: self.decoy_result.append(('ok', r)),
+                                                               lambda f: self.decoy_result.append(('fail', str(f.value))))
+
+    def decoy_tick(self):
+        n = len(self.decoy_lines)
+        # mid lines, and now and then a data block, so that every accumulator of the line machine is used
+        if n % 3 == 2:
+            self.decoy.dataReceived(('250+decoy/%d=\r\nblock %d\r\n.\r\n' % (n, n)).encode())
+            self.decoy_lines += ['decoy/%d=' % n, 'block %d' % n]
+        else:
+            self.decoy.dataReceived(('250-decoy/%d=line %d\r\n' % (n, n)).encode())
+            self.decoy_lines.append('decoy/%d=line %d' % (n, n))
+
+    def decoy_finish(self):
+        """-> [] when the other connection's command got exactly its own reply, else a description"""
+        try:
+            self.decoy.dataReceived(b'250 OK\r\n')
+        except Exception as e:
+            return ['OTHER-CONNECTION raised ' + type(e).__name__]
+        want = ('ok', '\n'.join(self.decoy_lines)) if self.decoy_lines else ('ok', 'OK')
+        if self.decoy_result != [want]:
+            return ['OTHER-CONNECTION got %r instead of its own %d lines' % (self.decoy_result[:1], len(self.decoy_lines))]
+        return []
 
     def listener(self, lid):
         """odd listeners are plain functions; even ones are bound methods, looked up afresh on every
@@ -237,6 +271,7 @@ class Impl:
                     self.lose(op[1])
             elif k == 'bytes':
                 if not self.dead:
+                    self.decoy_tick()
                     self.armed = nxt if (nxt is not None and nxt[0] in ('resubmit', 'relost')) else None
                     try:
                         self.proto.dataReceived(op[1].encode('latin-1'))
@@ -287,6 +322,9 @@ def run_impl(case):
                 groups.append((op[0], im.do(op, ops[i + 1] if i + 1 < len(ops) else None)))
     except Hang:
         groups.append(('hang', ['HANG: the implementation did not return within 5 s']))
+    bad = im.decoy_finish()
+    if bad:
+        groups.append(('other-connection', bad))
     return groups
 
 
